@@ -465,7 +465,10 @@ def rule_mode_pair(facts):
                 # `Self::go::<Mode>` would dispatch on self again through Mode::invoke*: unbounded mutual recursion
                 ok = False
                 why += " — but %s dispatches on `self` through Mode::invoke*, so this forwarder re-enters itself" % target
-            if not ok and f["name"] == b["name"] and all(x[0] == "arg" and x[1] == 1 and len(x) > 2 for x in a0) \
+            inner_recv = all(x[0] == "arg" and x[1] == 1 and len(x) > 2 for x in a0) or \
+                (all(x[0] == "arg" and x[1] == 1 for x in a0) and bool(a0) and f.get("self_ty") not in ("Self", None)
+                 and norm_ty(f.get("self_ty")) != norm_ty(b.get("impl_self")))        # the pointee of &T / Box<T> / Rc<T>: `(**self).go_emit(inp)`
+            if not ok and f["name"] == b["name"] and inner_recv \
                     and any(x[:2] == ("arg", 2) for x in a1):
                 # wrapper around a stored parser/operator (e.g. pratt::Boxed): forwards the SAME mode-specific method to
                 # a field of self -- legitimate only if the generic method is itself nothing but a mode dispatch
